@@ -1,14 +1,15 @@
 import os
 ID = 'C20'
 LEVEL = 'other'
-CONTRACT_MODULES = ['contracts.order', 'contracts.regions', 'contracts.catalogs', 'contracts.calc']
+CONTRACT_MODULES = ['contracts.order', 'contracts.regions', 'contracts.catalogs', 'contracts.calc', 'contracts.evals']
 CONE = ['lemma:C20:bin1d_vec is an elementwise function of the points',
         'lemma:C20:spatial_counts under a permutation of the events',
         'lemma:C20:spatial_event_probability under a permutation of the events',
         'lemma:C20:magnitude_counts under a permutation of the events',
         'lemma:C20:spatial_magnitude_counts under a permutation of the events',
-        'csep.core.regions.CartesianGrid2D.get_index_of']
-ORACLE_MODULES = ['rt.oracles_catfc']
+        'csep.core.regions.CartesianGrid2D.get_index_of',
+        'csep.core.poisson_evaluations._w_test_ndarray']
+ORACLE_MODULES = ['rt.oracles_catfc', 'rt.oracles_eval', 'rt.oracles_contracts']
 BOUNDED = os.path.exists(os.path.join(os.path.dirname(__file__), '..', 'rt', 'bounded_C20.py'))
 FLOAT_MODEL = 'R (floats as reals): the relational lemmas compare two runs of the same real body, so rounding enters both runs identically'
 TRUSTED = ['numpy.add.at / fancy indexing / mask selection models', 'the oracles in rt/ compute the expected outcome from the property statement, independently of the code under test', 'pyvc engine, z3 5.1']
